@@ -471,7 +471,7 @@ def run_c10(ctx):
             fired0 = sum(v for kk, v in w.fired.items() if kk.startswith("io-error"))
             swallowed = True
             with m.actor("victim") as a:
-                a.err_at = (k, _errno.ENOSPC)
+                a.err_at = (k, _errno.ENOSPC, ("write",))
                 try:
                     body()
                 except Exception as e:  # the process failed with an error: fine
